@@ -39,6 +39,31 @@ CLAIMS = {
   text="Decides that all ring state is touched under the mutex, that a push or close always broadcasts, that Wait sits in a re-testing loop, that refusal happens only on the occupied-slot edge tested under the lock, that Close discards every slot, that Pull has a single consumer spawned once, and that an error stops the consumer after one report. Does not decide linearizability of concurrent histories.",
   note="Trusts: sync.Mutex/Cond semantics; RingBuffer.Reset is documented single-threaded (exempt).",
   ref="3 C16"),
+ "C01": dict(
+  technique="SSA path queries (retention vs buffer reuse), single-write path counting, lockset analysis with lock-held helper summaries, who-may-write",
+  text="Decides structural necessary conditions of end-to-end delivery: a datagram that may be retained never shares its buffer with the next read, every RTSP element is written with one Write call, a refused push is reported to the writer, the stream fan-out runs under the stream lock, the announced SSRC is the one stamped on packets, interleaved channels are bound RTP/RTCP-consistently. Does not decide order / at-most-once / no-loss over schedules.",
+  note="Trusts: net.Conn.Write is atomic with respect to concurrent writers; reorder buffer and application callbacks are the only retainers of datagram bytes.",
+  ref="3 C01"),
+ "C11": dict(
+  technique="VTA call-graph reachability of panic sites (iterated refinement), lockset on cross-session accesses, finite-domain method tracking for handler assertions, correlated nil-guard path queries",
+  text="Decides that no unimplemented-stub panic is reachable from server goroutines or API entry points and every other explicit panic is classified; that code walking a stream's sessions reads their mutable state under their lock; that unchecked handler assertions are covered by checked ones for the same method; that optional header fields are dereferenced only on non-nil paths; plus the response / close / deadline / goroutine-lifecycle rules shared with C02 and C13. Does not decide timing or observe released resources.",
+  note="Trusts: VTA soundness for the program (no unsafe/reflection calls); the reviewed panic classification table; handlers honour their documented contracts.",
+  ref="3 C11"),
+ "C17": dict(
+  technique="provenance analysis of byte buffers with path conditions (encrypt-before-sink, decrypt-before-parse), boolean path enumeration of the admission predicate, lockset on the shared SRTP context",
+  text="Decides that in every function that can encrypt, a buffer leaving towards the queue or socket is the encrypt output whenever an SRTP context is known set; that parsers receive decrypt output when a context is set and never after a failed decrypt; that the transport admission predicate refuses SAVP without TLS and plain UDP with TLS on every accepting path; that a redirect cannot downgrade rtsps; that the shared SRTP context is used under its exclusive lock. Does not decide key agreement or observe bytes on the wire.",
+  note="Trusts: pion/srtp encrypt/decrypt semantics; wrappedSRTPContext is the only way to pion/srtp.",
+  ref="3 C17"),
+ "C18": dict(
+  technique="provenance / dominance analysis of size guards on every write entry point, start-time guard path queries",
+  text="Decides that every write entry point bounds what leaves it: RTP marshalled into a MaxPacketSize(-srtpOverhead) buffer with the error returned before any escape, RTCP refused above MaxPacketSize(-srtcpOverhead) before any escape, encryption into a MaxPacketSize buffer; and that Start refuses an over-large MaxPacketSize and a non power-of-two queue size on every path to the spawn. Does not decide that SRTP adds exactly the overhead constants (an MKI adds bytes they do not count: see DESIGN.md findings).",
+  note="Trusts: pion MarshalTo fails on a short buffer; overhead constants.",
+  ref="3 C18"),
+ "C19": dict(
+  technique="must-pass-through path queries on the UDP filters, lookup-key provenance, lockset, entry-block shape of the connection pin",
+  text="Decides that in the client UDP loop the timestamp update and the callback are reachable only through the source-IP and source-port checks, that the server delivers only to the callback registered for the datagram's exact (IP, port), that the peer table is written only by add/remove under its lock, that an existing session is granted only on the edge where IP and zone equal the creator's, and that a foreign connection is refused first thing with 4xx and an error. Does not decide IPv4-mapped normalisation.",
+  note="Trusts: net.IP.Equal semantics.",
+  ref="3 C19"),
 }
 
 NA = {
